@@ -626,9 +626,6 @@ where
         drop(shared);
         drop(inner);
     }
-    for (t, msg) in &out.panics {
-        viol::record("panic", format!("thread {t} panicked: {msg}"));
-    }
     let live = tracked::live_count();
     if live != 0 {
         viol::record("leak", format!("{live} tracked element(s) still alive after every list was dropped: {:?}", tracked::live_by_payload()));
